@@ -264,7 +264,9 @@ class TimeAxis(ValueAxis):
             raise Exception("Inconsistent data")
             
         if self.start > 0.0:
-            self.data[:] = self.data[:] - self.start
+            # a new array: the values may be shared with (shallow) copies 
+            # of this axis, which stay where they are
+            self.data = self.data - self.start
             self.start = 0.0
             
             
